@@ -664,6 +664,20 @@ func specialConversionCase(c *core.Ctx, i int) {
 		if o, _ := renderPage(c, tpl, "late", nil); !o.Panicked && (o.Err != nil || o.Out != "one:HI!twoX!twoX!") {
 			c.Violation("registry:registered-during-render", fmt.Sprintf("a function registered (successfully) by another function during the render gave %s, want %q", o.Describe(), "one:HI!twoX!twoX!"), map[string]any{"files": describeFiles(files)})
 		}
+		// ... or while the arguments of the very call are being evaluated; and a call whose argument list ends in a comma
+		textwire.RegisterIntFunc("install", func(n int, a ...any) int {
+			textwire.RegisterIntFunc("plus", func(x int, b ...any) int { return x + int(b[0].(int64)) })
+			return n
+		})
+		for _, tc := range []struct{ src, want string }{
+			{"{{ 40.plus(2.install()) }}", "42"},
+			{"{{ \"a\".rec(1, 2,) }}|{{ [1].rec(\n 1,\n) }}|{{ 7.rec(\"x\",).str() }}", "a|1|7"},
+			{"{{ true.rec([1, 2,], {k: 1,},) }}", "1"},
+		} {
+			if g := evalString(c, tc.src, nil); !g.Panicked && (g.Err != nil || g.Out != tc.want) {
+				c.Violation("conversion:call-failed", fmt.Sprintf("%s gave %s, want %q", tc.src, g.Describe(), tc.want), map[string]any{"source": tc.src})
+			}
+		}
 		if got := evalString(c, "{{ \"three\".reg() }}{{ \"y\".latethree() }}", nil); !got.Panicked && (got.Err != nil || got.Out != "threeY!") {
 			c.Violation("registry:registered-during-render", fmt.Sprintf("EvaluateString: a function registered during the render gave %s", got.Describe()), nil)
 		}
